@@ -11,6 +11,7 @@ Emitter half and glue for flat documents whose list values hold scalars and sing
 -/
 import Octave.Lemmas.MapLex
 import Octave.Lemmas.MapParse
+import Octave.Lemmas.MapDocParse
 import Octave.Lemmas.ListBridge
 namespace Octave.Maps
 open Lexer Emitter
@@ -26,20 +27,34 @@ def MItem.isEntry : MItem → Bool
   | .entry _ _ => true
   | .scalar _ => false
 
-/-- when the emitter spells the item the way `MItem.text` does: a scalar quoted exactly when `needs_quotes` says so; an
-inline-map value likewise, and no bare word under a `PATTERN` / `REGEX` key (`_force_quote_inline_map_value`). -/
+/-- when the emitter spells an inline-map value the way `FScalar.text` does (`_force_quote_inline_map_value`): a string is
+quoted when `needs_quotes` says so OR when the key is `PATTERN` / `REGEX` (forced quotes; the value then must not itself start
+with `"`, which no string that needs no quotes does); a bare word needs no quotes and does not sit under `PATTERN` / `REGEX`. -/
+def EntryEmitOK (k : Str) : FScalar → Prop
+  | .qstr s => needsQuotes s = true ∨ (alwaysQuoteKey k = true ∧ (s.head? != some '"') = true)
+  | .bare s => needsQuotes s = false ∧ alwaysQuoteKey k = false
+  | _ => True
+
+/-- when the emitter spells the item the way `MItem.text` does. -/
 def MItemEmitOK : MItem → Prop
   | .scalar s => ItemEmitOK s
-  | .entry k v => (FLine.mk k v).EmitOK
+  | .entry k v => EntryEmitOK k v
 
 theorem scalar_value_present (v : FScalar) : isAbsent v.value = false := by cases v <;> rfl
 
-theorem emitValue_entryValue (k : Str) (v : FScalar) (h : (FLine.mk k v).EmitOK) (ind : Nat) :
+theorem emitValue_entryValue (k : Str) (v : FScalar) (h : EntryEmitOK k v) (ind : Nat) :
     (emitValue v.value ind).map (fun vs => forceQuote k vs v.value) = some v.text := by
   cases v with
   | qstr s =>
-    have hq : needsQuotes s = true := h
-    simp [FScalar.value, FScalar.text, emitValue, emitStr, hq, forceQuote, quoted]
+    cases hq : needsQuotes s with
+    | true => simp [FScalar.value, FScalar.text, emitValue, emitStr, hq, forceQuote, quoted]
+    | false =>
+      have h' : alwaysQuoteKey k = true ∧ (s.head? != some '"') = true := by
+        rcases h with h | h
+        · rw [hq] at h; cases h
+        · exact h
+      have hne : s.head? ≠ some '"' := by simpa using h'.2
+      simp [FScalar.value, FScalar.text, emitValue, emitStr, hq, forceQuote, h'.1, hne]
   | bare s =>
     have hq : needsQuotes s = false := h.1
     have ha : alwaysQuoteKey k = false := h.2
@@ -48,7 +63,7 @@ theorem emitValue_entryValue (k : Str) (v : FScalar) (h : (FLine.mk k v).EmitOK)
   | null => simp [FScalar.value, FScalar.text, emitValue, forceQuote]
   | int i => simp [FScalar.value, FScalar.text, emitValue, forceQuote]
 
-theorem emitPairs_entry (k : Str) (v : FScalar) (h : (FLine.mk k v).EmitOK) (ind : Nat) :
+theorem emitPairs_entry (k : Str) (v : FScalar) (h : EntryEmitOK k v) (ind : Nat) :
     emitPairs [(k, v.value)] ind = some [k ++ (':' :: ':' :: v.text)] := by
   have hv := emitValue_entryValue k v h ind
   cases hx : emitValue v.value ind with
@@ -483,6 +498,34 @@ theorem need_le_mtoks (ln : MLine) (lay : Layout) (l : Nat) : ln.v.need ≤ (ln.
       | cons x r =>
         have := mMultiTailToks_length ind r (l + 1) (1 + ind + x.text.length)
         simp only [mListToks, mMultiToks, List.length_cons, List.length_append]; omega
+
+theorem MLine.toV_okW (ln : MLine) (lay : Layout) (l : Nat) : (ln.toV lay l).OKW ln.v.need := by
+  obtain ⟨key, v⟩ := ln
+  cases v with
+  | scalar s => exact (MLine.toV_ok ⟨key, .scalar s⟩ lay l trivial).toW
+  | list items =>
+    have hv := MLine.toV_vtoks ⟨key, .list items⟩ lay l
+    obtain ⟨vs, hrel, hl0⟩ := mListToks_ok lay l (1 + key.length + 2) items
+    have hl : MListToks vs ((MLine.toV ⟨key, .list items⟩ lay l).vt :: (MLine.toV ⟨key, .list items⟩ lay l).vr) := by
+      rw [hv]; exact hl0
+    have := vline_mlist_okW (tIdent key l 1) (tAssign l (1 + key.length))
+      (tNewline (l + (MValue.list items).height lay) ((MValue.list items).endCol lay (1 + key.length + 2))) key
+      vs _ _ hl rfl rfl rfl rfl
+    rw [rel_vals hrel, hrel.length_eq] at this
+    exact this
+
+theorem toVLinesM_okW (ls : List ML) : ∀ l, ∀ v ∈ toVLinesM l ls, v.OKW ((mlinesToks l ls).length + 6) := by
+  induction ls with
+  | nil => intro l v hv; cases hv
+  | cons x r ih =>
+    intro l v hv
+    simp only [toVLinesM, List.mem_cons] at hv
+    rcases hv with rfl | hv
+    · refine (MLine.toV_okW x.1 x.2 l).mono ?_
+      have := need_le_mtoks x.1 x.2 l
+      simp only [mlinesToks, List.length_append]; omega
+    · refine (ih _ v hv).mono ?_
+      simp only [mlinesToks, List.length_append]; omega
 
 theorem toVLinesM_ok (ls : List ML) (hq : ∀ x ∈ ls, x.1.v.Quiet) : ∀ l, ∀ v ∈ toVLinesM l ls, v.OK ((mlinesToks l ls).length + 6) := by
   induction ls with
